@@ -436,7 +436,7 @@ Proof.
   - rewrite upd_ids. assumption.
   - intros n i' F. apply upd_in in F. destruct F as [i [F [Q _]]]. rewrite Q. eauto.
   - intros n i' F. apply upd_in in F. destruct F as [i [F [Q1 [Q2 Q3]]]].
-    pose proof (inv_par0 _ _ F) as P. unfold parent_ok in *. rewrite Q3, Q1.
+    pose proof (inv_par0 _ _ F) as P. unfold parent_ok in *. rewrite Q3.
     destruct (i_parent i) as [p|]; auto. destruct P as [pi [LP KP]].
     rewrite upd_lookup, LP. eexists. split; [reflexivity|]. destruct (Nat.eqb p nm); simpl; auto.
   - apply topo_upd. assumption.
